@@ -113,6 +113,27 @@ class STIXdatetime(dt.datetime):
         return "'%s'" % format_datetime(self)
 
 
+def _timestamp_key(value):
+    """
+    Get a key for comparing "modified"/"created" values of different object
+    versions.  Objects which are kept as plain dicts (e.g. of unregistered
+    custom types) have timestamp strings; comparing those as text gives wrong
+    answers when the same or different instants are spelled with different
+    numbers of fractional digits.
+
+    :param value: A datetime, a timestamp string, or None
+    :return: A datetime if value could be interpreted as a timestamp;
+        otherwise value itself
+    """
+    if isinstance(value, str):
+        try:
+            value = parse_into_datetime(value)
+        except ValueError:
+            pass
+
+    return value
+
+
 def deduplicate(stix_obj_list):
     """Deduplicate a list of STIX objects to a unique set.
 
@@ -135,7 +156,7 @@ def deduplicate(stix_obj_list):
     unique_objs = {}
 
     for obj in stix_obj_list:
-        ver = obj.get("modified") or obj.get("created")
+        ver = _timestamp_key(obj.get("modified") or obj.get("created"))
 
         if ver is None:
             unique_objs[obj["id"]] = obj
